@@ -364,6 +364,52 @@ def rule_fixpoints(ctx, rep, config="c-lib"):
                                   where=i.where(), witness=[early[0].where(), ld.where()])
                 else:
                     rep.ok("R10", key, sample={"xor": i.where(), "field": fld})
+    # element loops: an early exit decided by something that does not change inside the loop makes the loop degenerate
+    # (it looks at one element, or at an element of the enclosing loop, instead of at each of its own)
+    for fn in FUNCS:
+        f = p.fn(fn)
+        for L in f.loops():
+            hphis = set(i.id for i in f.bmap[L["header"]].insts if i.op == "phi")
+            if not hphis:
+                continue
+            inner_defs = set(i.id for bn in L["body"] for i in f.bmap[bn].insts)
+            for bn in sorted(L["body"]):
+                if bn == L["header"]:
+                    continue
+                b = f.bmap[bn]
+                t = b.term
+                if t is None or t.op != "br" or len(t.ops) != 3 or all(s_ in L["body"] for s_ in b.succs):
+                    continue
+                # dependency closure of the condition inside the loop
+                seen, work, dep = set(), [t.ops[0]], False
+                calls = False
+                while work:
+                    o = work.pop()
+                    if o.get("k") != "i" or o["v"] in seen:
+                        continue
+                    seen.add(o["v"])
+                    if o["v"] in hphis:
+                        dep = True
+                        break
+                    ii = f.insts.get(o["v"])
+                    if ii is None or ii.id not in inner_defs:
+                        continue
+                    if ii.is_call():
+                        calls = True
+                    if ii.op == "phi" and len(set(repr(v) for (v, _) in ii.d["incoming"])) > 1:
+                        dep = True     # the value depends on the path taken inside this iteration
+                        break
+                    for x in (ii.d.get("ops") or []) + [v for (v, _) in ii.d.get("incoming", [])] + ([ii.d["base"]] if "base" in ii.d else []) + \
+                            [st[k] for st in ii.d.get("path", []) for k in ("idx", "ptr") if k in st] + list(ii.d.get("args") or []):
+                        work.append(x)
+                n += 1
+                key = "%s/exit-depends-on-element@%s" % (fn, bn)
+                if dep or calls:
+                    rep.ok("R10", key, nontrivial=True)
+                else:
+                    rep.violation("R10", key, "a loop of %s is left by a test that does not depend on the loop's own element (nothing in the condition changes from one "
+                                  "iteration to the next): the loop examines the wrong element -- e.g. the enclosing loop's -- instead of each of its own" % fn,
+                                  where=t.where(), witness=[t.where()])
     rep.floor("R10", "fixpoint obligations", n, 8)
 
 
